@@ -92,7 +92,43 @@ func (vm *VM) lockEventLog(kind string, ls *lockState, ok bool) {
 	if ls != nil {
 		lbl = ls.label
 	}
-	vm.P.lockEvents = append(vm.P.lockEvents, lockEvent{Kind: kind, Lock: lbl, Held: vm.heldLabels(), Where: vm.where(), OK: ok})
+	ev := lockEvent{Kind: kind, Lock: lbl, Held: vm.heldLabels(), Where: vm.where(), OK: ok}
+	vm.P.lockEvents = append(vm.P.lockEvents, ev)
+	if vm.P.lockMonitor == "" {
+		return
+	}
+	// lock-discipline premises of DESIGN §C14(A), checked as the events happen
+	inner := vm.P.lockMonitor
+	isInner := func(l string) bool { return strings.HasSuffix(l, inner) }
+	holdsInner, holdsShard := false, false
+	for _, h := range ev.Held {
+		if isInner(h) {
+			holdsInner = true
+		} else {
+			holdsShard = true
+		}
+	}
+	switch kind {
+	case "lock", "rlock":
+		vm.P.Oblig++
+		switch {
+		case holdsInner:
+			vm.recordViolation("c14.lock-acquired-while-holding-map-lock", fmt.Sprintf("%s of %s while holding %v", kind, lbl, ev.Held), tTrue)
+		case holdsShard && !isInner(lbl):
+			vm.recordViolation("c14.blocking-shard-acquire-while-holding-a-shard-lock", fmt.Sprintf("blocking %s of %s while holding %v", kind, lbl, ev.Held), tTrue)
+		default:
+			vm.P.Discharged++
+		}
+	case "trylock", "tryrlock", "io", "chan", "callback":
+		vm.P.Oblig++
+		if holdsInner {
+			vm.recordViolation("c14.map-lock-held-across-"+kind, fmt.Sprintf("%s %s while holding the map lock %v", kind, lbl, ev.Held), tTrue)
+		} else if kind == "chan" && holdsShard {
+			vm.recordViolation("c14.channel-operation-while-holding-a-lock", fmt.Sprintf("channel operation while holding %v", ev.Held), tTrue)
+		} else {
+			vm.P.Discharged++
+		}
+	}
 }
 
 func (vm *VM) addHeld(k string) { vm.P.heldOrder = append(vm.P.heldOrder, k) }
@@ -284,6 +320,15 @@ func addSync(m map[string]Intrinsic) {
 			vm.P.Discharged++
 		}
 		return nil
+	}
+	// vLockMonitor(innermost): from now on every lock / IO / channel event is checked against
+	// the lock-order premises; innermost names the map lock (label suffix, e.g. ".mu")
+	m["vocab.vLockMonitor"] = func(vm *VM, fn *ssa.Function, args []Value) Value {
+		vm.P.lockMonitor = constStr(vm, args[0], "vLockMonitor")
+		return nil
+	}
+	m["vocab.vLocksLeaked"] = func(vm *VM, fn *ssa.Function, args []Value) Value {
+		return intV(len(vm.P.heldOrder))
 	}
 	m["vocab.vResetLockEvents"] = func(vm *VM, fn *ssa.Function, args []Value) Value {
 		vm.P.lockEvents = nil
